@@ -45,7 +45,68 @@ func checkC02(w *World, r *Report) {
 // ---- C02.1 ---------------------------------------------------------------------------------------------------
 
 // sizeDelta: if in is `t.size = t.size ± k` on receiver t returns ±k.
+var sizeDepth int
+
 func sizeDelta(fn *ssa.Function, in ssa.Instruction, sizeF *types.Var) (int, bool, bool) {
+	// a helper method on the same transaction that changes the count by the same known amount on all its paths (t.grow(route))
+	if c, isCall := in.(*ssa.Call); isCall {
+		g := c.Call.StaticCallee()
+		if g != nil && g != fn && len(g.Blocks) > 0 && len(g.Params) > 0 && len(c.Call.Args) > 0 && c.Call.Args[0] == ssa.Value(fn.Params[0]) && g.Pkg == fn.Pkg && sizeDepth < 3 {
+			touches := false
+			eachInstr(g, func(in2 ssa.Instruction) {
+				if st, ok := in2.(*ssa.Store); ok {
+					if _, f, ok := fieldOfAddr(st.Addr); ok && f == sizeF {
+						touches = true
+					}
+				}
+			})
+			if !touches {
+				return 0, false, false
+			}
+			sizeDepth++
+			defer func() { sizeDepth-- }()
+			deltas := map[int]bool{}
+			unknown := false
+			// path enumeration over g (loop-free helpers; a cycle makes the amount unknown)
+			type key struct {
+				b *ssa.BasicBlock
+				d int
+			}
+			seen := map[key]bool{}
+			var walk func(b *ssa.BasicBlock, d int, depth int)
+			walk = func(b *ssa.BasicBlock, d int, depth int) {
+				if depth > 64 || seen[key{b, d}] {
+					if depth > 64 {
+						unknown = true
+					}
+					return
+				}
+				seen[key{b, d}] = true
+				for _, in2 := range b.Instrs {
+					if dd, isSize, known := sizeDelta(g, in2, sizeF); isSize {
+						if !known {
+							unknown = true
+						}
+						d += dd
+					}
+					if _, isRet := in2.(*ssa.Return); isRet {
+						deltas[d] = true
+					}
+				}
+				for _, sc := range b.Succs {
+					walk(sc, d, depth+1)
+				}
+			}
+			walk(g.Blocks[0], 0, 0)
+			if unknown || len(deltas) != 1 {
+				return 0, true, false
+			}
+			for d := range deltas {
+				return d, true, true
+			}
+		}
+		return 0, false, false
+	}
 	st, ok := in.(*ssa.Store)
 	if !ok {
 		return 0, false, false
